@@ -526,17 +526,20 @@ Example ex_unused : exists st outs,
      Append (repeat x43 30); ReadFd (KData (repeat x44 70)); Shrink 3; Swap] = true.
 Proof. vm_compute. eexists _, _. split; reflexivity. Qed.
 
-(* (last, because the string literals need Coq.Strings.String, whose [length] / [append] would shadow the list ones) *)
-From Coq Require Import String.
-(* the bodies that move data: presence and place of the copy / swap / nested calls, compared syntactically *)
-Theorem C10_tree_shapes :
-  shape makeSpace_tree = ["if{"; "call:buffer.resize"; "}else{"; "assert"; "let:readable"; "other:copy"; "set:readerIndex";
-                          "set:writerIndex"; "assert"; "}"]%string /\
-  shape prepend_tree = ["assert"; "set:readerIndex"; "havoc:d"; "other:copy"]%string /\
-  shape append2_char_tree = ["call:ensureWritableBytes"; "other:copy"; "call:hasWritten"]%string /\
-  shape shrink_tree = ["havoc:other"; "call:other.ensureWritableBytes"; "call:toStringPiece"; "call:other.append"; "call:swap"]%string /\
-  shape swap_tree = ["call:buffer.swap"; "other:swap"; "other:swap"]%string /\
-  shape retrieveAsString_tree = ["assert"; "havoc:result"; "call:retrieve"; "other:return"]%string.
-Proof. exact tree_shapes. Qed.
-Print Assumptions C10_tree_shapes.
+(* PINNED SHAPES (review F-2): the shape of EVERY generated tree ([all_trees]: 49 member functions) -- statements, order,
+   branch, every call with the number of its integer arguments, every local that is the bare result of a free call --
+   equals the committed list C10_GenLink.expected_shapes (re-pinned on purpose when the source legitimately changes).
+   For the trees without an [exec] theorem above (one-line wrappers, readIntN = peekIntN THEN retrieveIntN,
+   peekIntN = assert BEFORE memcpy, find*(start), shrink, swap, the constructor) this is the tie: deleting, adding
+   or reordering a statement or a call in any member function breaks it. *)
+Theorem C10_tree_shapes_all : shapes_of all_trees = expected_shapes.
+Proof. exact tree_shapes_all. Qed.
+Print Assumptions C10_tree_shapes_all.
 
+(* what is handed to sockets::readv: the descriptor and the iovcnt computed just before; n is the bare result *)
+Theorem C10_gen_readv_args : forall b B e,
+  let o := set_writable (Zn (writableBytes b)) (buf_obs b B e) in
+  readFd_readv0_arg0 o = o_fd e /\
+  readFd_readv0_arg2 (set_iovcnt (readFd_let_iovcnt o) o) = Zn (readFd_iovcnt b).
+Proof. exact gen_readv_args. Qed.
+Print Assumptions C10_gen_readv_args.
